@@ -73,6 +73,12 @@ def check_error_lengths(end, where):
     rate = end["error_rate"]
     eff = len(seq) - (seq.count("N"))
     table = end["error_lengths"]
+    # the table is a list of upper bounds: it ends at the number of non-N bases (no range is stated for match
+    # lengths the adapter cannot have) and no bound is repeated
+    if not table or table[-1] != eff or any(a >= b for a, b in zip(table, table[1:])):
+        raise Violation(f"'allowed errors' table {table} of adapter {seq} (rate {rate}) does not end at the number of "
+                        f"non-N bases ({eff}) or is not increasing; {where}", observed=table,
+                        expected=f"increasing upper bounds ending at {eff}", tag="error-ranges")
     for L in range(1, eff + 1):
         allowed = next((i for i, up in enumerate(table) if L <= up), None)
         if allowed is None or allowed != int(L * rate):
@@ -227,6 +233,58 @@ def check_text_report(r, paired, args):
     for side in (0, 1):
         if seen[side] != len(js[side]):
             raise Violation(f"text report lists {seen[side]} adapters for read {side + 1}, JSON lists {len(js[side])} ({args})")
+    check_text_error_ranges(text, js, args)
+
+
+def parse_ranges(line):
+    """'1-9 bp: 0; 10-16 bp: 1' -> [9, 16]; None if the line is not of that form or the ranges are not contiguous
+    from 1 with error counts 0, 1, 2, ..."""
+    import re
+
+    table, nxt = [], 1
+    for k, part in enumerate(line.strip().split("; ")):
+        m = re.fullmatch(r"(\d+)(?:-(\d+))? bp: (\d+)", part)
+        if not m:
+            return None
+        lo, hi, err = int(m.group(1)), int(m.group(2) or m.group(1)), int(m.group(3))
+        if lo != nxt or hi < lo or err != k:
+            return None
+        table.append(hi)
+        nxt = hi + 1
+    return table
+
+
+def check_text_error_ranges(text, js, args):
+    """The 'No. of allowed errors' lines of the text report: a table for ends that allow partial matches, one number
+    otherwise; both must be int(L x rate) for the lengths up to the number of non-N bases."""
+    import re
+
+    parts = re.split(r"=== (First read: |Second read: )?Adapter (\S+) ===\n", text)
+    seen = {0: 0, 1: 0}
+    for k in range(1, len(parts), 3):
+        side = 1 if (parts[k] or "").startswith("Second") else 0
+        body = parts[k + 2]
+        entry = js[side][seen[side]]
+        seen[side] += 1
+        ends = [e for e in (entry["five_prime_end"], entry["three_prime_end"]) if e is not None]
+        found = re.findall(r"No\. of allowed errors:([^\n]*)\n([^\n]*)", body)
+        if entry["total_matches"] == 0:
+            continue
+        if not found or len(found) > len(ends):
+            raise Violation(f"text report of adapter {entry['name']} has {len(found)} 'allowed errors' statements for "
+                            f"{len(ends)} adapter ends ({args})", observed=body[:400], tag="error-ranges-text")
+        for (same_line, next_line), end in zip(found, ends):
+            seq, rate = end["sequence"], end["error_rate"]
+            eff = len(seq) - seq.count("N")
+            if same_line.strip():
+                got, exp = same_line.strip(), str(int(rate * eff))
+            else:
+                got = parse_ranges(next_line)
+                exp = [L for L in range(1, eff) if int((L + 1) * rate) > int(L * rate)] + [eff]
+            if got != exp:
+                raise Violation(f"text report of adapter {entry['name']} ({seq}, rate {rate}) states allowed errors "
+                                f"'{(same_line.strip() or next_line)}', expected {exp} as upper bounds / number ({args})",
+                                observed=same_line.strip() or next_line, expected=exp, tag="error-ranges-text")
 
 
 # --------------------------------------------------------------------------- ranges
